@@ -369,6 +369,8 @@ def main(tier=None, replay=None):
     polyH = cm.compute("center_manifold_real").poly_H
     psi, clmo = _init_index_tables(N)
     lifting_part(ck)
+    import bracketmodel
+    bracketmodel.run(ck)
     step_part(ck, cm)
     engine_part(ck, cm, rnd)
     contract_part(ck, cm, polyH, clmo)
